@@ -585,7 +585,7 @@ theorem tagFixed_out {tag label : Str} {s : Schema} (hwf : WF s) (htf : TagFixed
     ∃ o', v' = .obj o' ∧ tagOf tag o' = some label := by
   obtain ⟨fields, keep, rfl, f, hf, hname, hreq, hgh, norm, hs, hnorm⟩ := htf
   cases hwf with
-  | obj _ hok hd =>
+  | obj _ hok hd _ =>
     rw [project_obj'] at h
     cases hc : collect (outs fields o) with
     | none => rw [hc] at h; cases h
@@ -717,7 +717,7 @@ theorem project_idem : ∀ (s : Schema), WF s → ∀ v v', project s v = some v
   | obj fields keep ih =>
     intro hwf v v' h
     cases hwf with
-    | obj hsub hok hd =>
+    | obj hsub hok hd _ =>
       cases v with
       | obj o => exact obj_idem hsub hok hd (fun f hf => ih f hf (hsub f hf)) h
       | _ => simp [project] at h
